@@ -129,19 +129,21 @@ def unregisterAll (s : St) (a : Nat) : St :=
     acts := fun j => if j ∈ w then { s.acts j with simcalls := (s.acts j).simcalls.erase a } else s.acts j
     actors := upd s.actors a { s.actors a with waiting := (s.actors a).waiting.filter (fun j => j ∉ w), wlist := [] } }
 
-/-- `true`: `unregister_first_simcall` as it is in /repo now: an issuer whose host is off is *marked* dying
-(`issuer->set_wannadie()`) without going through `ActorImpl::exit()`; `HostImpl::turn_off` then skips it
-(`ActorImpl::kill` ignores actors that are already `wannadie()`): finding `host-off-marks-peer-dying-without-exit`.
-`false`: the code with props/C10/proposed_fix.diff (third hunk: the issuer is simply not answered; `turn_off` kills it). -/
-def unregisterMarksDying : Bool := true
+/-- `false`: `unregister_first_simcall` as it is now: an issuer whose host is off is simply not answered
+(`if (issuer->wannadie() || not issuer->get_host()->is_on()) return nullptr;`); `HostImpl::turn_off` kills it in turn.
+`true`: the code before the fix of `host-off-marks-peer-dying-without-exit`: such an issuer was *marked* dying
+(`issuer->set_wannadie()`) without going through `ActorImpl::exit()`; `HostImpl::turn_off` then skipped it
+(`ActorImpl::kill` ignores actors that are already `wannadie()`), so it never ran `exit()` nor its on_exit callbacks.
+(The proofs of Wd.lean / Kill.lean hold for `false` only.) -/
+def unregisterMarksDying : Bool := false
 
-/-- `if (not issuer->get_host()->is_on()) issuer->set_wannadie();` -/
+/-- pre-fix only: `if (not issuer->get_host()->is_on()) issuer->set_wannadie();` (now the identity) -/
 def markDying (s : St) (a : Nat) : St :=
   if unregisterMarksDying then s.setActor a (fun x => { x with wannadie := true }) else s
 
 /-- second half of `unregister_first_simcall`: is the issuer answered?
-`if (simcall->call_ == NONE) return nullptr; if (not issuer->get_host()->is_on()) issuer->set_wannadie();
- if (issuer->wannadie()) return nullptr; return issuer;` -/
+`if (simcall->call_ == NONE) return nullptr;
+ if (issuer->wannadie() || not issuer->get_host()->is_on()) return nullptr; return issuer;` -/
 def answerTarget (s : St) (a : Nat) : St × Bool :=
   if ¬ (s.actors a).blocked then (s, false)
   else if ¬ s.hostOn (s.actors a).host then (markDying s a, false)
